@@ -53,6 +53,12 @@ func (b Base) RenderParam(e *expr.Expression) (s string, params []any, err error
 		return s, params, err
 	}
 
+	// a lone * pattern was serialized without a parameter (see serializeParams), it is a pattern
+	// like any other here so it needs one
+	if e.Op == expr.Like && len(rparams) == 0 && right == "'*'" {
+		right, rparams = "?", []any{"*"}
+	}
+
 	// if we are in a regular expression we need to convert the * to % and ? to _
 	if e.Op == expr.Like {
 		rval := rparams[0].(string)
